@@ -1,7 +1,7 @@
-use crate::ast::{BinaryOp, Commented, Expr, RecordEntry, RecordKey, SpannedExpr};
+use crate::ast::{BinaryOp, Commented, Expr, RecordEntry, RecordKey, SpannedExpr, UnaryOp};
 use crate::ast_to_source::{
     expr_to_source, format_record_key, is_open_ended, lambda_body_needs_parens,
-    needs_parens_in_binop, needs_parens_in_postfix,
+    needs_parens_in_binop, needs_parens_in_postfix, needs_parens_in_prefix,
 };
 use crate::values::LambdaArg;
 
@@ -27,6 +27,13 @@ fn format_expr_impl(expr: &SpannedExpr, max_cols: usize, indent: usize) -> Strin
         return format_multiline(expr, max_cols, indent);
     }
 
+    // Comments live on list items, record entries and do-block statements. A single-line
+    // rendering has no room for them, so an expression that contains any is laid out
+    // node by node instead.
+    if contains_comments(expr) {
+        return format_multiline(expr, max_cols, indent);
+    }
+
     // First, try single-line formatting using our custom formatter
     let single_line = format_single_line(expr);
 
@@ -42,6 +49,53 @@ fn format_expr_impl(expr: &SpannedExpr, max_cols: usize, indent: usize) -> Strin
 
     // Otherwise, apply smart multi-line formatting based on expression type
     format_multiline(expr, max_cols, indent)
+}
+
+/// Does the expression carry a comment anywhere inside it?
+fn contains_comments(expr: &SpannedExpr) -> bool {
+    match &expr.node {
+        Expr::List(items) => items
+            .iter()
+            .any(|item| item.has_comments() || contains_comments(&item.node)),
+        Expr::Record(entries) => entries.iter().any(|entry| {
+            entry.has_comments()
+                || contains_comments(&entry.node.value)
+                || match &entry.node.key {
+                    RecordKey::Dynamic(key) | RecordKey::Spread(key) => contains_comments(key),
+                    _ => false,
+                }
+        }),
+        Expr::Lambda { body, .. } => contains_comments(body),
+        Expr::Conditional {
+            condition,
+            then_expr,
+            else_expr,
+        } => {
+            contains_comments(condition)
+                || contains_comments(then_expr)
+                || contains_comments(else_expr)
+        }
+        Expr::DoBlock {
+            statements,
+            return_expr,
+        } => {
+            statements
+                .iter()
+                .any(|stmt| stmt.has_comments() || contains_comments(&stmt.node))
+                || return_expr.has_comments()
+                || contains_comments(&return_expr.node)
+        }
+        Expr::Assignment { value, .. } => contains_comments(value),
+        Expr::Output { expr } => contains_comments(expr),
+        Expr::Call { func, args } => contains_comments(func) || args.iter().any(contains_comments),
+        Expr::Access { expr, index } => contains_comments(expr) || contains_comments(index),
+        Expr::DotAccess { expr, .. } => contains_comments(expr),
+        Expr::BinaryOp { left, right, .. } => contains_comments(left) || contains_comments(right),
+        Expr::UnaryOp { expr, .. } | Expr::PostfixOp { expr, .. } | Expr::Spread(expr) => {
+            contains_comments(expr)
+        }
+        _ => false,
+    }
 }
 
 /// Format an expression on a single line (respecting our formatting rules)
@@ -147,8 +201,44 @@ fn format_multiline(expr: &SpannedExpr, max_cols: usize, indent: usize) -> Strin
             statements,
             return_expr,
         } => format_do_block_multiline(statements, return_expr, max_cols, indent),
+        // Operators without a layout of their own: format the operand in place
+        Expr::UnaryOp { op, expr: operand } => {
+            let op_str = match op {
+                UnaryOp::Negate => "-",
+                UnaryOp::Not => "!",
+                UnaryOp::Invert => "~",
+            };
+            let operand_str = format_expr_impl(operand, max_cols, indent);
+            if needs_parens_in_prefix(operand) {
+                format!("{}({})", op_str, operand_str)
+            } else {
+                format!("{}{}", op_str, operand_str)
+            }
+        }
+        Expr::PostfixOp { expr: base, .. } => {
+            format!("{}!", format_postfix_base(base, max_cols, indent))
+        }
+        Expr::Access { expr: base, index } => format!(
+            "{}[{}]",
+            format_postfix_base(base, max_cols, indent),
+            format_expr_impl(index, max_cols, indent)
+        ),
+        Expr::DotAccess { expr: base, field } => {
+            format!("{}.{}", format_postfix_base(base, max_cols, indent), field)
+        }
+        Expr::Spread(inner) => format!("...{}", format_expr_impl(inner, max_cols, indent)),
         // For other expression types, fall back to single-line
         _ => expr_to_source(expr),
+    }
+}
+
+/// Format the operand of a postfix operator, index or field access
+fn format_postfix_base(base: &SpannedExpr, max_cols: usize, indent: usize) -> String {
+    let formatted = format_expr_impl(base, max_cols, indent);
+    if needs_parens_in_postfix(base) {
+        format!("({})", formatted)
+    } else {
+        formatted
     }
 }
 
